@@ -92,6 +92,7 @@ def r31(facts, res):
     rows = {}
     for p in paths:
         tp = pp = cmpv = tk = pk = None
+        level_poss = None
         tokarg = prodarg = None
         for t, v in p.conds:
             if t[0] == 'discr' and is_call(t[1], 'token_precedence'):
@@ -100,21 +101,30 @@ def r31(facts, res):
             elif t[0] == 'discr' and is_call(t[1], 'prod_precedence'):
                 pp = v if pp is None or isinstance(pp, tuple) else pp
                 prodarg = t[1][2][1]
-            elif t[0] == 'discr' and t[1][0] == 'cmp':
-                a, c = t[1][1], t[1][2]
+            elif (t[0] == 'discr' and t[1][0] == 'cmp') or (t[0] == 'bin' and t[1] in ('Lt', 'Le', 'Eq') and isinstance(v, int)
+                                                           and any(isinstance(x, tuple) and len(x) > 3 and x[0] == 'field' and x[3] == 'level' for x in (t[2], t[3]))):
+                # any ordering test of the two levels narrows the possible orderings of (token level, production level)
+                op, a, c = ('cmp', t[1][1], t[1][2]) if t[0] == 'discr' else (t[1], t[2], t[3])
                 if not (a[0] == 'field' and a[3] == 'level' and c[0] == 'field' and c[3] == 'level'):
                     res.bad(R, 'cmp-operands', loc_of(b, p.blocks[-1]), 'Ordering decided on something other than the two `level` fields: %s' % fmt_term(t))
                     return
+                if op == 'cmp':
+                    al = {v} if isinstance(v, int) else ({-1, 0, 1} - set(v[1]) if isinstance(v, tuple) and v[0] == 'ne' else {-1, 0, 1})
+                elif op == 'Lt':
+                    al = {-1} if v else {0, 1}
+                elif op == 'Le':
+                    al = {-1, 0} if v else {1}
+                else:
+                    al = {0} if v else {-1, 1}
                 if has_call(a, 'token_precedence') and has_call(c, 'prod_precedence'):
-                    cmpv = v
+                    pass
                 elif has_call(a, 'prod_precedence') and has_call(c, 'token_precedence'):
-                    cmpv = -v if isinstance(v, int) else v
+                    al = {-x for x in al}
                 else:
                     res.bad(R, 'cmp-operands', loc_of(b, p.blocks[-1]), 'level comparison does not compare token with production precedence: %s' % fmt_term(t))
                     return
-            elif t[0] == 'bin' and t[1] in ('Lt', 'Le', 'Eq', 'Ne'):
-                res.lost(R, 'precedence levels compared with %s instead of Ord::cmp: table reader does not model this form' % t[1])
-                return
+                level_poss = al if level_poss is None else (level_poss & al)
+                cmpv = next(iter(level_poss)) if len(level_poss) == 1 else None
             elif t[0] == 'discr' and t[1][0] == 'field' and t[1][3] == 'kind':
                 if has_call(t[1], 'token_precedence'):
                     tk = v
